@@ -78,7 +78,7 @@ func (c *config) describe() []string {
 func TestProp(t *testing.T) {
 	env := vh.GetEnv()
 	rep := vh.NewReport("C13", "exploration")
-	rep.Rule("stream c13: per generated route set (2-8 upstreams: simple routes incl. ports/twins/hosts shadowing a rewrite pattern; rewrite routes of 9 flavours incl. overlapping, unanchored, case-insensitive and catch-all patterns; one rule kind, optional own provider_slug, preserve_host, skip_auth per upstream) cases draw a Host class (exact, case variant, trailing dot, port variant, affix near-miss, unrelated, junk bytes, empty, missing, absolute-form target with a different Host header) x a credential class (none, good, cross-upstream, policy, default-slug, foreign-slug, revalidation-due, full login through /oauth2/callback); distinct = host class | route kind/flavour the reference router selects | #matching patterns | credential class | own-slug | rule kind | outcome, counted only when the proxy answered. stream c13-seq (history): per case a proxy stack of its own built from one of 6 purpose-made route sets (case-sensitive strict pattern followed by a lenient one; (?i) pattern next to a case-sensitive one; simple route + rewrite routes sharing the name modulo case/port/dot; port-sensitive patterns; two simple routes differing only in case; strict pattern alone) and a sequence of 2-6 requests whose Hosts are related variants of one exact host (case, trailing dot, port, near-twin served by another route, unroutable near-miss, absolute-form authority), variant-first and exact-first, each request judged like a single request; distinct = template | variant kind | order | length")
+	rep.Rule("stream c13: per generated route set (2-8 upstreams: simple routes incl. ports/twins/hosts shadowing a rewrite pattern; rewrite routes of 9 flavours incl. overlapping, unanchored, case-insensitive and catch-all patterns; one rule kind, optional own provider_slug, preserve_host, skip_auth per upstream) cases draw a Host class (exact, case variant, trailing dot, port variant, affix near-miss, unrelated, junk bytes, empty, missing, absolute-form target with a different Host header) x a credential class (none, good, cross-upstream, policy, default-slug, foreign-slug, revalidation-due, full login through /oauth2/callback); distinct = host class | route kind/flavour the reference router selects | #matching patterns | credential class | own-slug | rule kind | outcome, counted only when the proxy answered. stream c13-seq (history): per case a proxy stack of its own built from one of 6 purpose-made route sets (case-sensitive strict pattern followed by a lenient one; (?i) pattern next to a case-sensitive one; simple route + rewrite routes sharing the name modulo case/port/dot; port-sensitive patterns; two simple routes differing only in case; strict pattern alone) and a sequence of 2-6 requests whose Hosts are related variants of one exact host (case, trailing dot, port, near-twin served by another route, unroutable near-miss, absolute-form authority), variant-first and exact-first, each request judged like a single request; distinct = template | variant kind | order | length. stream c13-anch (anchoring): per case a stack of its own with 2-3 overlapping rewrite patterns over hosts [labels.]p<port>.q<port>.ex.test[suffix] in every anchoring combination {^..$, ^.. (end-open), ..$ (start-open), unanchored} and configuration order, patterns with alternations, optional groups, (?i), empty-matching patterns, `to` templates using different capture groups, ~10 hosts each (prefix labels, suffix, both, dropped label, alternation letters, case) chosen so that the earlier-configured pattern often matches LATER in the string than a later-configured one; distinct = anchoring tuple | cores")
 	rep.Assume("header_overrides of an upstream are applied to every response its handler chain produces and to none other (used to observe which upstream handled a request)")
 	rep.Assume("the fake authenticator answers exactly as scripted; group membership of a session with no check due is 'as of the last check'")
 	rep.Assume("Host values containing bytes outside [A-Za-z0-9.:_-] or a missing Host header may be refused with 400 by the HTTP server before routing")
@@ -94,6 +94,7 @@ func TestProp(t *testing.T) {
 		runConfig(rep, env, ci, perConfig, only)
 	}
 	runSeq(rep, env)
+	runAnch(rep, env)
 	rep.Extra("wall_workload_s", time.Since(start).Seconds())
 	if e, n := atomic.LoadInt64(&clientErrors), atomic.LoadInt64(&requestsSent); e*50 > n {
 		rep.Inconclusive(fmt.Sprintf("%d of %d client requests failed at the transport level (nothing observed for them)", e, n))
@@ -120,13 +121,11 @@ type runner struct {
 	c      *config
 	ps     *sut.ProxyStack
 	stream string
-	after  string // history stream: what kinds of related requests this stack has already seen (signature suffix)
+	suffix string // class suffix of signatures (history stream: what the stack has already seen; anchoring stream: anchoring of the configured patterns)
 }
 
 func (rn *runner) violate(i int, sig, what string, kc kase) {
-	if rn.after != "" {
-		sig += " after=" + rn.after
-	}
+	sig += rn.suffix
 	rn.rep.Violate(rn.stream, i, sig, what, kc)
 }
 
@@ -511,7 +510,7 @@ func (rn *runner) judge(i int, step string, p probe, ck cookieInfo, rs *sut.Resp
 		// candidates: the documented substitution (from either spelling of the host where the name is a don't-care variant)
 		okBackend := false
 		for _, a := range []string{handled.addr, handled.u.reAddr(p.Eff), handled.u.reAddr(norm(p.Eff))} {
-			if b := c.byAddr[a]; b != nil && b.Name == h.Backend && (strict && a == handled.addr || !strict) {
+			if b := c.backendAt(a); b != nil && b.Name == h.Backend && (strict && a == handled.addr || !strict) {
 				okBackend = true
 			}
 		}
@@ -568,7 +567,7 @@ func (rn *runner) judge(i int, step string, p probe, ck cookieInfo, rs *sut.Resp
 	switch {
 	case rs.Status == 502:
 		outcome = "proxied-to-dead-address"
-		if c.byAddr[handled.addr] != nil && strict {
+		if c.backendAt(handled.addr) != nil && strict {
 			viol("backend: listening-backend-not-reached-502 route="+u.routeKind(), fmt.Sprintf("Host %q resolves to listening backend %q but the proxy answered 502", p.Eff, handled.addr))
 		}
 	case served:
